@@ -1871,10 +1871,71 @@ class Walker:
         self.inlined.append(fi.fq)
         return ("done", self.block(holder.body, env))
 
+    def _unzip_loop(self, s: ast.For, env: Dict[str, Term]) -> Optional[ast.For]:
+        """`for a, b in zip(A[:k], B)` (optionally under `enumerate`) over positional buffers is the index loop
+        `for r in range(k): a = A[r]; b = B[r]`.  Done only when one operand is a leading slice `X[:k]` (which fixes the number
+        of rounds: the other operands are at least that long, or the shorter one would have ended the original loop early - the
+        buffers of this library are allocated with k or k + 1 slots) - loops over nodes / caller rows keep their own form."""
+        it = s.iter
+        counter = None
+        start = None
+        if s.orelse:
+            return None
+        if isinstance(it, ast.Call) and isinstance(it.func, ast.Name) and it.func.id == "enumerate" and "enumerate" not in env \
+                and len(it.args) == 1 and isinstance(s.target, ast.Tuple) and len(s.target.elts) == 2 \
+                and isinstance(s.target.elts[0], ast.Name) and all(k.arg == "start" for k in it.keywords) and len(it.keywords) <= 1:
+            counter, inner_t, it2 = s.target.elts[0].id, s.target.elts[1], it.args[0]
+            start = it.keywords[0].value if it.keywords else None
+        else:
+            inner_t, it2 = s.target, it
+        if isinstance(it2, ast.Call) and isinstance(it2.func, ast.Name) and it2.func.id == "zip" and "zip" not in env and not it2.keywords \
+                and len(it2.args) >= 1 and isinstance(inner_t, ast.Tuple) and len(inner_t.elts) == len(it2.args):
+            ops, tgts = list(it2.args), list(inner_t.elts)
+        elif isinstance(it2, ast.Subscript):
+            ops, tgts = [it2], [inner_t]
+        else:
+            return None
+
+        def lead(e):  # X[:k] -> (X, k)
+            if isinstance(e, ast.Subscript) and isinstance(e.slice, ast.Slice) and e.slice.lower is None and e.slice.step is None \
+                    and e.slice.upper is not None and not (isinstance(e.slice.upper, ast.UnaryOp)):
+                return e.value, e.slice.upper
+            return None
+        simple = lambda e: isinstance(e, (ast.Name, ast.Attribute)) or (lead(e) is not None and isinstance(lead(e)[0], (ast.Name, ast.Attribute)))
+        if not all(simple(e) for e in ops) or not any(lead(e) is not None for e in ops):
+            return None
+        if any(isinstance(x, ast.Starred) for x in tgts):
+            return None
+        bound = next(lead(e)[1] for e in ops if lead(e) is not None)
+        if any(lead(e) is not None and unparse(lead(e)[1]) != unparse(bound) for e in ops):
+            return None
+        self._cw_n = getattr(self, "_cw_n", 0) + 1
+        r = f"$z{self._cw_n}"
+        rn = lambda: ast.Name(id=r, ctx=ast.Load())
+        pre = []
+        for e, t in zip(ops, tgts):
+            base = lead(e)[0] if lead(e) is not None else e
+            pre.append(ast.Assign(targets=[t], value=ast.Subscript(value=base, slice=rn(), ctx=ast.Load()), lineno=s.lineno))
+        if counter is not None:
+            cv = rn() if start is None else ast.BinOp(left=rn(), op=ast.Add(), right=start)
+            pre.insert(0, ast.Assign(targets=[ast.Name(id=counter, ctx=ast.Store())], value=cv, lineno=s.lineno))
+        loop = ast.For(target=ast.Name(id=r, ctx=ast.Store()),
+                       iter=ast.Call(func=ast.Name(id="range", ctx=ast.Load()), args=[bound], keywords=[]),
+                       body=pre + list(s.body), orelse=[], lineno=s.lineno)
+        ast.copy_location(loop, s)
+        for n in ast.walk(loop):
+            if not hasattr(n, "lineno"):
+                ast.copy_location(n, s)
+        ast.fix_missing_locations(loop)
+        return loop
+
     def for_(self, s: ast.For, env: Dict[str, Term]):
         gen = self._generator_loop(s, env)
         if gen is not None:
             return True if gen[1] is True else None
+        unz = self._unzip_loop(s, env)
+        if unz is not None:
+            return self.for_(unz, env)
         rec = record_items(self.repo, (self.fnstack[-1] if self.fnstack else self.entry).module, s.iter)
         if rec is not None:
             # a loop over the fields of a constant record: one copy of the body per (name, default) pair
@@ -2564,6 +2625,12 @@ class Walker:
             if len(vals) == 1:
                 return vals[0]
             return (kind, tuple(vals))
+        if isinstance(e, ast.NamedExpr) and isinstance(e.target, ast.Name):
+            # `(n := value)`: binds the name, here and for everything evaluated afterwards, and is the value
+            v = self.ev(e.value, env)
+            env[e.target.id] = v
+            self.emit("bind", e, name=e.target.id, value=v)
+            return v
         if isinstance(e, ast.IfExp):
             c = self.ev(e.test, env)
             a, b = self.ev(e.body, env), self.ev(e.orelse, env)
@@ -3100,7 +3167,9 @@ class Walker:
         return None
 
     def inline_call(self, fi: FunctionInfo, recv, args, kwargs, e: ast.Call, outer_env=None) -> Term:
-        if any(d.split("(")[0].split(".")[-1] not in ("staticmethod", "njit", "jit", "property") for d in fi.decorators):
+        is_gen = any(isinstance(n, (ast.Yield, ast.YieldFrom)) for n in ast.walk(fi.node))
+        if is_gen or any(d.split("(")[0].split(".")[-1] not in ("staticmethod", "njit", "jit", "property") for d in fi.decorators):
+            # (a generator function called as an expression hands back a generator object, not the value its body returns)
             # a decorated helper is not its body (memoisation, wrapping, ...): keep the call opaque
             fn = ("attr", recv, fi.name) if recv is not None else ("mod", f"{fi.module}.{fi.qual}")
             t = ("call", fn, args, kwargs)
